@@ -513,6 +513,36 @@ def known_streams(drv, ck, workdir):
             break
 
 
+def known_cr_stream(drv, ck, workdir):
+    """F-C07-b on this property's path: RowDataSheet.export(csv) removes the carriage returns inside cells, so a text
+    holding CR / CRLF comes back without them.  Deterministic trigger; attribution: the recompiled text is EXACTLY the
+    original without its CRs, and the same flow with the CRs taken out beforehand survives the round trip."""
+    g = FJ.FlowGen(random.Random(9), 1)
+    text = "line one\r\nline two\rend"
+
+    def mk(t):
+        doc = FJ.gen_container(random.Random(7), 1, special_text=False)
+        doc["flows"][0]["nodes"] = [{"uuid": "11111111-2222-4333-8444-555555555555",
+                                     "actions": [{"uuid": g.uuid(), "type": "send_msg", "text": t, "attachments": [], "quick_replies": []}],
+                                     "exits": [{"uuid": g.uuid(), "destination_uuid": None}]}]
+        return doc
+    doc2, err = roundtrip(mk(text), "csv", False, False, workdir)
+    fail_clean = check_one(drv, mk(text.replace("\r", "")), "csv", False, False, workdir)
+    ck.evaluations += 2
+    got = None
+    if doc2 is not None:
+        acts = [a for n in doc2["flows"][0]["nodes"] for a in n.get("actions", [])]
+        got = acts[0].get("text") if len(acts) == 1 else None
+    if got == text:
+        ck.notes.append("F-C07-b no longer reproduces on the flow round trip (a text with CR / CRLF survives the CSV sheet)")
+    elif got == text.replace("\r", "") and fail_clean is None:
+        ck.known("F-C07-b", "a message text holding CR / CRLF comes back from the CSV sheet without its carriage returns (RowDataSheet.export "
+                            "removes every CR of the written text); the same text without CRs survives", {"text": text, "recompiled_text": got})
+    else:
+        ck.violation("a flow whose message text holds CR / CRLF does not survive the CSV sheet, and not in the way finding F-C07-b describes",
+                     {"text": text, "recompiled_text": got, "error": err, "same_flow_without_cr": fail_clean})
+
+
 def _expressible_except_order(doc):
     saved = FJ.order_stable
     try:
@@ -600,6 +630,7 @@ def run(ck: core.Check):
         drv = core.Driver()
         corpus_stream(drv, ck, workdir)
         known_streams(drv, ck, workdir)
+        known_cr_stream(drv, ck, workdir)
         run_action_codec(ck, quick)
         n_total = 1920 if quick else 9600
         maxnodes = 14 if quick else 22
